@@ -1,6 +1,7 @@
 //! Verification harness for a4lg/ffuzzy: drives the real API and records what it
 //! returned (trace validation), or replays TLC-generated scenarios.  It contains no
 //! expected values: every judgement is made by TLC against the TLA+ specification.
+mod cmp;
 mod gen;
 mod util;
 mod words;
@@ -39,10 +40,28 @@ fn main() {
                 gen::drive_sizes(&args, &w, thorough);
             }
         }
+        "cmp" => {
+            let thorough = args.tier == "thorough";
+            let mode = args.rest.get(0).map(|s| s.as_str()).unwrap_or("all").to_string();
+            let n = |q: usize, t: usize| if thorough { t } else { q };
+            match mode.as_str() {
+                "pairs" => cmp::drive_cmp(&args, n(2500, 60000)),
+                "ed" => cmp::drive_ed(&args, thorough, n(3000, 100000)),
+                "sub" => cmp::drive_sub(&args, thorough, n(3000, 60000)),
+                "ss" => cmp::drive_ss(&args, thorough, n(2000, 40000)),
+                "reuse" => cmp::drive_reuse(&args, n(150, 3000), n(2000, 50000)),
+                "tables" => cmp::drive_tables(&args),
+                x => {
+                    eprintln!("unknown cmp mode {}", x);
+                    std::process::exit(2);
+                }
+            }
+        }
         "replay" => {
             // replay <family> <in.ndjson>  --out DIR
             match args.rest[0].as_str() {
                 "gen" => gen::replay(&args.rest[1], &args.out),
+                "cmp" => cmp::replay(&args.rest[1], &args.out),
                 f => {
                     eprintln!("unknown replay family {}", f);
                     std::process::exit(2);
